@@ -1,34 +1,43 @@
 #!/bin/bash
-# MANIFEST.setup_cmd: build everything from files on disk, offline.
+# MANIFEST.setup_cmd: build everything the claimed checks need, from files on disk, offline.
 set -u
 cd "$(dirname "$0")"
 export CARGO_NET_OFFLINE=true
 mkdir -p target evidence replay ocaml/gen
 [ -f harness/Cargo.lock ] || cp /repo/Cargo.lock harness/Cargo.lock
-rc=0
-python3 -c "import sys; sys.path.insert(0,'lib'); import vcheck; vcheck.ensure_makefile()" || rc=1
-( cd coq && timeout 3000 make -k -j16 2>&1 | grep -v "^Closed under\|^COQ\|WARNING" | tail -20 ) || rc=1
-python3 - <<'PY' || rc=1
-import os, sys
+python3 - <<'PY'
+import json, os, sys
 sys.path.insert(0, 'lib')
 import vcheck
 from props import PROPS
+claimed = set(json.load(open('lib/claimed.json')))
+props = {k: v for k, v in PROPS.items() if k in claimed}
 bad = 0
-for cl in sorted(set(p['cluster'] for p in PROPS.values())):
+vcheck.ensure_makefile()
+for tr in sorted(set(tuple(t) for p in props.values() for t in p.get('translators', []))):
+    r, out = vcheck.sh(list(tr), 300, cwd=vcheck.ROOT)
+    print('translator', ' '.join(tr), 'ok' if r == 0 else 'FAILED')
+    if r != 0:
+        print(out[-1500:]); bad = 1
+clusters = sorted(set(p['cluster'] for p in props.values()))
+r, out = vcheck.sh(['make', '-k', '-j16'] + ['%s/Properties.vo' % c for c in clusters], 5400, cwd=vcheck.COQ)
+print('coq', 'ok' if r == 0 else 'FAILED')
+if r != 0:
+    print(out[-3000:]); bad = 1
+for cl in clusters:
     r, out = vcheck.build_model(cl)
     print('model', cl, 'ok' if r == 0 else 'FAILED')
     if r != 0:
         print(out[-2000:]); bad = 1
 seen = set()
-for p in PROPS.values():
+for p in props.values():
     for prof in p.get('profiles', ['dev']):
         if (p['crate'], prof) in seen:
             continue
         seen.add((p['crate'], prof))
-        r, out = vcheck.build_harness(p['crate'], prof, timeout=7200)
+        r, out = vcheck.build_harness(p['crate'], prof, timeout=10800)
         print('harness', p['crate'], prof, 'ok' if r == 0 else 'FAILED')
         if r != 0:
             print(out[-3000:]); bad = 1
 sys.exit(bad)
 PY
-exit $rc
